@@ -24,7 +24,7 @@ theorem nr_pre (st : St) (e : Ev) (h : NoResidue st) : NoResidue (pre st e).1 :=
   | rxAck k =>
     simp only [pre]
     split
-    · exact nr_congr st _ _ (alive_toAcked (fun r => r.phase == Phase.waitAck)) rfl (fun l hl => hl) h
+    · exact nr_congr st _ _ (alive_toAcked (fun r => r.phase == Phase.waitAck && r.gen == st.gen)) rfl (fun l hl => hl) h
     · exact h0
   | rxRsp key =>
     simp only [pre]
@@ -74,6 +74,11 @@ theorem nr_pre (st : St) (e : Ev) (h : NoResidue st) : NoResidue (pre st e).1 :=
     · exact nr_same st _ rfl (fun l hl => hl) h
     · exact nr_same st _ rfl (fun l hl => hl) h
   | setReset b => exact h0
+  | connect =>
+    simp only [pre]
+    split
+    · exact h0
+    · exact nr_same st _ rfl (fun l hl => hl) h
 
 /-- what the event loop may do between two events -/
 inductive Sched : St → St → Prop
